@@ -198,8 +198,11 @@ def check(ctx):
     mb = model_builder(ctx)
     af = ctx.fn(GEM, "GaussianElectionModel.get_aggregate_prediction_intervals")
     as_ = mb.summarize(af, self_cls=gcls)
-    mbt = as_.env.get("modeled_bounds")
-    ctx.require(mbt is not None and mbt[0] == "sub", f"{af.where()}: modeled_bounds selection not found")
+    mbt = None
+    for _, _, t_, _ in as_.assigns:
+        if t_[0] == "sub" and t_[1][0] == "call" and t_[1][1][0] == "attr" and t_[1][1][2] == "assign" and any(k_ in ("lb", "ub") for k_, _v in t_[1][3]):
+            mbt = t_
+    ctx.require(mbt is not None and mbt[0] == "sub", f"{af.where()}: selection of the lb / ub columns not found")
     F = Frames(mb)
     matched = mbt[1]
     base = matched
@@ -232,7 +235,12 @@ def check(ctx):
     # the summed unit bounds and weights per group
     bt = None
     for pc, name, t, n in as_.assigns:
-        if name == "bounds" and t[0] == "call" and t[1][0] == "attr" and t[1][2] == "reset_index":
+        if t[0] == "call" and t[1][0] == "attr" and t[1][2] == "reset_index" and t[1][1][0] == "call" and t[1][1][1][0] == "attr" \
+                and t[1][1][1][2] == "apply" and "nonreporting_weight_ssum" in ir.show(t, maxdepth=3) + str(t)[:0]:
+            bt = t
+        elif bt is None and t[0] == "call" and t[1][0] == "attr" and t[1][2] == "reset_index" and t[1][1][0] == "call" and t[1][1][1][0] == "attr" \
+                and t[1][1][1][2] == "apply" and t[1][1][1][1][0] == "call" and t[1][1][1][1][1][0] == "attr" and t[1][1][1][1][1][2] == "groupby" \
+                and t[1][1][1][1][1][1][0] == "call" and t[1][1][1][1][1][1][1][0] == "attr" and t[1][1][1][1][1][1][1][2] == "assign":
             bt = t
     okb = False
     if bt is not None:
@@ -340,7 +348,7 @@ def check(ctx):
                    "models considered at step i are those fitted one or more levels up (last i keys null), with those keys dropped" if okrm
                    else "remaining models are not 'rows of the model table that are null at the last i key levels'")
     # the model handed to the loop is fitted for this aggregate and alpha
-    gmc = [t for pc, name, t, n in as_.assigns if name == "gaussian_model"]
+    gmc = [t for pc, name, t, n in as_.assigns if t[0] == "call" and t[1][0] == "attr" and t[1][2] == "fit" and "GaussianModel" in ir.show(t[1][1], maxdepth=2)]
     okg = bool(gmc) and _kw(gmc[0], "aggregate") == AGG and _kw(gmc[0], "alpha") == ("param", "alpha") and gmc[0][2][0] == ("attr", ("param", "unit_prediction_intervals"), "conformalization")
     ctx.ob("C15.R3.model", f"{af.qualname}|models fitted for this key list, level and calibration set", okg, af.where(),
            "GaussianModel.fit(calibration data of this level's unit intervals, aggregate=aggregate, alpha=alpha)" if okg else "the model table is not fitted for this aggregate / alpha / calibration set")
